@@ -230,6 +230,12 @@ def run_world(w: World, only=None):
             elif mode == 2:
                 twin = copy.copy(sm)
                 twin.add_listener(Spy())
+            # whatever the application keeps on the model travels with the copy
+            note = ("note", zlib.crc32(m.scn.name.encode()) % 1000, [ci])
+            try:
+                sm.model.__dict__["verif_note"] = note
+            except Exception:  # noqa: BLE001
+                note = None
             if mech == "pickle":
                 import pickle
                 clone = pickle.loads(pickle.dumps(sm))
@@ -237,6 +243,11 @@ def run_world(w: World, only=None):
                 clone = copy.deepcopy(sm)
             rt.sm = clone
             rt.model = clone.model
+            if note is not None and getattr(clone.model, "verif_note", None) != note:
+                rt.lines.append(f"X the copy's model lost an attribute the application had set on the original's model: "
+                                f"{getattr(clone.model, 'verif_note', None)!r} instead of {note!r}")
+            elif note is not None and clone.model.verif_note is note:
+                rt.lines.append("X the copy's model shares a mutable attribute value with the original's model")
             rt.next_tid, rt.initial_tid = s.rt.next_tid, s.rt.initial_tid
             if getattr(rt.model, m.scn.state_field, None) is None:
                 rt.initial_tid = rt.next_tid
